@@ -246,7 +246,8 @@ class GroupBy:
                 *group_key_list, sort=False
             )
 
-        self.result_index.names = group_key_names
+        # set_names returns a new Index: the labels may be the caller's own object
+        self._result_index = self._result_index.set_names(group_key_names)
 
     @cached_property
     def _group_key_lengths(self):
